@@ -226,6 +226,8 @@ def run(ctx):
     # Slice.top/bot/step/width and the cached SliceInner
     from contracts import c_export
     ctx.verify(c_export.engine(), [c for c in c_export.VERIFY if c.key.startswith("hdl21.slice:")])
+    # the positions a slice selects in its parent, in order (used by the resolver to peel strided / reversed slices)
+    ctx.verify(c_export.engine(), c_export.VERIFY_INDICES, min_obligations={c_export.VERIFY_INDICES[0].key: 30})
     ctx.assumptions.append("slice steps: one scenario per constant step in [-%d, %d] (width, start, stop unbounded)"
                            % ((16, 16) if thorough else (4, 4)))
 
